@@ -170,14 +170,17 @@ def run(ctx, rep):
             def model(c, av, envv, pe):
                 if c.dest.get("ty", "") != "std::cmp::Ordering":
                     return None
+                if (c.name or "").startswith(("std::cmp::Ordering::", "core::cmp::Ordering::")):
+                    return None          # a combinator on an Ordering (then, then_with, reverse): evaluated
                 if all(a is not None and a[0] in ("i", "b") for a in
                        [pe._deref_all(envv, x) for x in av]) and av:
                     return None          # a comparison of known integers (the rank): evaluated, not enumerated
-                if c.bb not in sites:
-                    sites.append(c.bb)
-                if c.bb not in order:
-                    order.append(c.bb)
-                k = sites.index(c.bb)
+                site = (c.body.name, c.bb)
+                if site not in sites:
+                    sites.append(site)
+                if site not in order:
+                    order.append(site)
+                k = sites.index(site)
                 return True, ("adt", outcome[k] if k < len(outcome) else 1, ())
             return model, order
         # discover the comparator sites with every outcome Equal, then enumerate to a fixpoint
@@ -189,8 +192,9 @@ def run(ctx, rep):
             table = {}
             for outcome in itertools.product((1, 0, 2), repeat=max(n_prev, 0)):
                 model, order = mk(outcome)
-                res = PE(cmpb, model, inline=inline, crate=lib, eq_ok=eq_ok).run(
-                    env={1: ("rv", val(i)), 2: ("rv", val(i))})
+                pe_ = PE(cmpb, model, inline=inline, crate=lib, eq_ok=eq_ok)
+                pe_.model_in_closures = True
+                res = pe_.run(env={1: ("rv", val(i)), 2: ("rv", val(i))})
                 vals = {v for _, v in res.returns}
                 table[outcome] = (tuple(order), vals)
         if len(sites) < 2:
@@ -201,6 +205,9 @@ def run(ctx, rep):
             continue
         problems = []
         sign = {}
+
+        def sname(site):
+            return "bb%d%s" % (site[1], "" if site[0] == cmpb.name else " of " + site[0].rsplit("::", 1)[-1])
         for outcome, (order, vals) in sorted(table.items()):
             if len(vals) != 1 or list(vals)[0] is None or list(vals)[0][0] != "adt":
                 problems.append("outcomes %s: the result is not determined (%s)" % (outcome, vals))
@@ -213,16 +220,16 @@ def run(ctx, rep):
                 continue
             o = outcome[sites.index(first)]
             if got == 1:
-                problems.append("the comparator at bb%d answers %s but the result is Equal: two objects that differ "
+                problems.append("the comparator at %s answers %s but the result is Equal: two objects that differ "
                                 "there are tied although later comparators order objects that agree there "
-                                "(not transitive)" % (first, ORD[o]))
+                                "(not transitive)" % (sname(first), ORD[o]))
                 continue
             prev = sign.setdefault((first, o), got)
             if prev != got:
-                problems.append("the result for comparator bb%d = %s depends on later comparators" % (first, ORD[o]))
+                problems.append("the result for comparator %s = %s depends on later comparators" % (sname(first), ORD[o]))
             other = sign.get((first, 2 - o))
             if other is not None and other == got:
-                problems.append("comparator bb%d: Less and Greater give the same result" % first)
+                problems.append("comparator %s: Less and Greater give the same result" % sname(first))
         if problems:
             r.bad(key, problems[0] + (" (+%d more)" % (len(problems) - 1) if len(problems) > 1 else ""), cmpb.where())
         else:
